@@ -485,10 +485,21 @@ def r54(ctx: Ctx) -> RuleReport:
     # `remaining = [...]; self.triples[:] = remaining`: the local is the list of the triples that remain
     remaining_names = {norm(n.value) for n in walk_local(fi.node) if isinstance(n, ast.Assign) and norm(n.targets[0]) in ('self.triples', 'self.triples[:]')
                        and isinstance(n.value, ast.Name)}
+    # a local alias of the list:  triples = self.triples  (also  triples, epidata = self.triples, self.epidata)
+    alias_names = {nm for nm, vals in ctx.cg.local_assigns(fi).items() if len(vals) == 1 and isinstance(vals[0], ast.AST) and norm(vals[0]) == 'self.triples'}
+    rebinds = [n for n in walk_local(fi.node) if isinstance(n, ast.Assign) and norm(n.targets[0]) == 'self.triples']
+    for n in ast.walk(sv):
+        if isinstance(n, (ast.GeneratorExp, ast.SetComp, ast.ListComp)) and norm(n.generators[0].iter) in alias_names and rebinds:
+            # the attribute is re-bound to a NEW list: the alias still names the list from before the removal
+            rep.violation('penman.graph:Graph.__isub__: occurrence is judged on the triples that remain', fi.loc(n),
+                          f'`{norm(n.generators[0].iter)}` was taken from self.triples before `{norm(rebinds[0])[:50]}` bound the attribute to a new list: the variables that "still occur" are '
+                          f'computed from the triples as they were BEFORE the removal, so an explicit top stays although no remaining triple mentions it '
+                          f'(Graph([...], top="b") - <every triple with b> still reports top b, and variables() still contains it)')
+            return rep
     for n in ast.walk(sv):
         if isinstance(n, (ast.GeneratorExp, ast.SetComp, ast.ListComp)):
             gens = n.generators
-            if norm(gens[0].iter) == 'self.triples' or norm(gens[0].iter) in remaining_names:
+            if norm(gens[0].iter) == 'self.triples' or norm(gens[0].iter) in remaining_names or (norm(gens[0].iter) in alias_names and not rebinds):
                 over_triples = True
                 tv = gens[0].target
                 if isinstance(tv, ast.Name):
@@ -2394,6 +2405,21 @@ def r88(ctx: Ctx) -> RuleReport:
                         stack_.append(m_)
                 return False
             given = {f'{attr} is None': False, f'{attr} is not None': True, f'not {attr}': False, attr: True, f'{attr} == None': False}
+            # the parameter is thrown away under a condition that does not say it was not given
+            from ..resolve import facts_ex as _fx88
+            dropped = None
+            for nd_ in cfg.nodes:
+                if nd_.kind == 'stmt' and isinstance(nd_.ast, ast.Assign) and len(nd_.ast.targets) == 1 and isinstance(nd_.ast.targets[0], ast.Name) and nd_.ast.targets[0].id == attr \
+                        and isinstance(nd_.ast.value, ast.Constant) and nd_.ast.value.value is None and nid in cfg.reachable_from([nd_.id]):
+                    fx_ = _fx88(ctx, init, nd_.ast)
+                    absent = any((f in given and pol != given[f]) for f, pol in fx_)
+                    if fx_ and not absent:
+                        dropped = (nd_.ast, sorted(f for f, pol in fx_ if pol)[:2])
+            if dropped:
+                rep.violation(key, init.loc(dropped[0]), f'`{norm(dropped[0])}` discards a `{attr}` the caller DID pass (it runs under {dropped[1]}, not under "{attr} is None"): the object is built as '
+                              f'if the argument had not been given - an explicit top that equals the first source becomes an implicit one, and stops being the top as soon as the '
+                              f'first triple is removed')
+                continue
             from_param = carried(False)
             kept = from_param and carried(True)
             if from_param and not kept:
@@ -3808,4 +3834,179 @@ def r139(ctx: Ctx) -> RuleReport:
                 else:
                     rep.ok(key, fi.loc(lp))
     rep.analysed['flags_examined'] = n_flags
+    return rep
+
+
+# ---------------------------------------------------------------------------------------------
+@rule('R140', 'a container is not resized inside a loop that iterates over it (or over its live keys()/items()/values() view) and then goes on iterating')
+def r140(ctx: Ctx) -> RuleReport:
+    rep = RuleReport('R140', r140.title, floor=0)
+    n_loops = 0
+
+    def iterated(it):
+        """source text of the container a for-loop walks over directly (no copy), else None"""
+        if isinstance(it, ast.Call) and isinstance(it.func, ast.Attribute) and it.func.attr in ('keys', 'items', 'values') and not it.args:
+            return norm(it.func.value), 'dict view'
+        if isinstance(it, ast.Call) and isinstance(it.func, ast.Name) and it.func.id in ('iter', 'enumerate', 'reversed') and it.args:
+            r = iterated(it.args[0])
+            return r if r else ((norm(it.args[0]), 'container') if isinstance(it.args[0], (ast.Name, ast.Attribute)) else None)
+        if isinstance(it, (ast.Name, ast.Attribute)):
+            return norm(it), 'container'
+        return None
+    for fi in ctx.repo.all_functions():
+        loops = [n for n in walk_local(fi.node) if isinstance(n, ast.For)]
+        cfg = None
+        for lp in loops:
+            src = iterated(lp.iter)
+            if src is None:
+                continue
+            cont, kind = src
+            muts = []
+            for b in lp.body:
+                for x in ast.walk(b):
+                    if isinstance(x, ast.Delete) and any(isinstance(t, ast.Subscript) and norm(t.value) == cont for t in x.targets):
+                        muts.append(x)
+                    elif isinstance(x, ast.Call) and isinstance(x.func, ast.Attribute) and norm(x.func.value) == cont and \
+                            x.func.attr in ('pop', 'popitem', 'clear', 'remove', 'discard', 'add', 'append', 'insert', 'extend', 'update', 'setdefault'):
+                        muts.append(x)
+            if not muts:
+                continue
+            n_loops += 1
+            if cfg is None:
+                cfg = CFG(fi.node)
+            pm = ctx.repo.parent_map(fi.node)
+            head = cfg.node_of(lp)
+            key = f'{fi.fq}: the loop over `{norm(lp.iter)[:40]}` does not resize `{cont}` and go on'
+            bad = None
+            for m in muts:
+                st = m
+                while not isinstance(st, ast.stmt):
+                    st = pm[id(st)]
+                if cfg.path_avoiding([(cfg.node_of(st), None)], {head}, lambda nd: False):
+                    bad = m
+                    break
+            if bad is not None:
+                rep.violation(key, fi.loc(bad), f'`{norm(bad)[:50]}` changes the size of `{cont}` while `for {norm(lp.target)} in {norm(lp.iter)[:40]}` is walking over it ({kind}, not a copy) and the loop '
+                              f'then takes its next item: for a dict or set that is "RuntimeError: ... changed size during iteration", for a list items are skipped or visited twice')
+            else:
+                rep.ok(key, fi.loc(lp), 'every resizing statement leaves the loop')
+    rep.analysed['loops_with_a_resizing_statement'] = n_loops
+    return rep
+
+
+# ---------------------------------------------------------------------------------------------
+@rule('R141', 'state that __setstate__ rebuilds is rebuilt the way __init__ builds it (same calls, same literals): an unpickled / deep-copied object behaves like the original')
+def r141(ctx: Ctx) -> RuleReport:
+    rep = RuleReport('R141', r141.title, floor=0)
+    n = 0
+
+    def skeleton(e: ast.AST):
+        calls = [norm(x.func).split('.')[-1] for x in ast.walk(e) if isinstance(x, ast.Call)]
+        consts = [x.value for x in ast.walk(e) if isinstance(x, ast.Constant) and isinstance(x.value, (str, int, float, bool)) and x.value is not None]
+        return sorted(calls), sorted(map(repr, consts))
+    for c in ctx.repo.all_classes():
+        ss = c.methods.get('__setstate__')
+        init = c.methods.get('__init__')
+        if ss is None or init is None:
+            continue
+        built_init = {}
+        for x in walk_local(init.node):
+            if isinstance(x, ast.Assign) and len(x.targets) == 1 and isinstance(x.targets[0], ast.Attribute) and norm(x.targets[0].value) == 'self' and isinstance(x.value, ast.Call):
+                built_init[x.targets[0].attr] = x
+        for x in walk_local(ss.node):
+            if not (isinstance(x, ast.Assign) and len(x.targets) == 1 and isinstance(x.targets[0], ast.Attribute) and norm(x.targets[0].value) == 'self' and isinstance(x.value, ast.Call)):
+                continue
+            a = x.targets[0].attr
+            if a not in built_init:
+                continue
+            n += 1
+            key = f'{ss.fq}: self.{a} is rebuilt as __init__ builds it'
+            si, sr = skeleton(built_init[a].value), skeleton(x.value)
+            if si == sr:
+                rep.ok(key, ss.loc(x), f'calls {si[0]}, literals {si[1]}')
+            else:
+                rep.violation(key, ss.loc(x), f'__init__ builds it with calls {si[0]} and literals {si[1]} (`{norm(built_init[a].value)[:60]}`), __setstate__ with calls {sr[0]} and literals '
+                              f'{sr[1]} (`{norm(x.value)[:60]}`): an object that went through pickle / copy.deepcopy (a model handed to a worker process) answers differently from '
+                              f'the one it was copied from - for the role pattern without its ^(...)$ anchors, every role that merely STARTS with a defined role counts as defined')
+    rep.analysed['rebuilt_attributes'] = n
+    return rep
+
+
+# ---------------------------------------------------------------------------------------------
+@rule('R142', 'the stand-in that next(it, None) returns for an exhausted iterator is tested before the value is put back among the items')
+def r142(ctx: Ctx) -> RuleReport:
+    from ..resolve import facts_ex
+    rep = RuleReport('R142', r142.title, floor=0)
+    n_sites = 0
+    for fi in ctx.repo.all_functions():
+        for st in walk_local(fi.node):
+            if not (isinstance(st, ast.Assign) and len(st.targets) == 1 and isinstance(st.targets[0], ast.Name) and isinstance(st.value, ast.Call)
+                    and norm(st.value.func) == 'next' and len(st.value.args) == 2 and isinstance(st.value.args[1], ast.Constant) and st.value.args[1].value is None):
+                continue
+            x = st.targets[0].id
+            pm = ctx.repo.parent_map(fi.node)
+            for use in walk_local(fi.node):
+                if not (isinstance(use, ast.Name) and use.id == x and isinstance(use.ctx, ast.Load)):
+                    continue
+                par = pm.get(id(use))
+                as_item = isinstance(par, (ast.List, ast.Tuple, ast.Set)) and isinstance(pm.get(id(par)), ast.Call) \
+                    and norm(pm[id(par)].func).split('.')[-1] in ('chain', 'extend', 'list', 'iter', 'deque', 'from_iterable')
+                as_item = as_item or (isinstance(par, ast.Call) and isinstance(par.func, ast.Attribute) and par.func.attr in ('append', 'appendleft', 'insert') and use in par.args)
+                as_item = as_item or isinstance(par, ast.Yield)
+                if not as_item:
+                    continue
+                n_sites += 1
+                fx = {(f.replace(' ', ''), pol) for f, pol in facts_ex(ctx, fi, use)}
+                tested = (f'{x}isNone', False) in fx or (f'{x}isnotNone', True) in fx or (x, True) in fx
+                key = f'{fi.fq}: `{x}` from {norm(st.value)[:40]} is known not to be the stand-in where it is put back'
+                if tested:
+                    rep.ok(key, fi.loc(use))
+                else:
+                    rep.violation(key, fi.loc(use), f'`{norm(st)[:50]}` gives None when the iterator is exhausted, and `{norm(pm.get(id(par)) if isinstance(par, (ast.List, ast.Tuple)) else par)[:50]}` '
+                                  f'puts the value back among the items without a test: for an input without any item (an empty file, an empty list of lines) a None travels on as if it '
+                                  f'were a line - the lexer is handed None instead of a string, so the empty stream raises where the empty string gives no graphs')
+    rep.analysed['sites'] = n_sites
+    return rep
+
+
+# ---------------------------------------------------------------------------------------------
+@rule('R143', 'itertools.groupby is only applied to data that is sorted (or otherwise known to be contiguous) by the grouping key')
+def r143(ctx: Ctx) -> RuleReport:
+    rep = RuleReport('R143', r143.title, floor=0)
+    n_sites = 0
+    for fi in ctx.repo.all_functions():
+        pm = None
+        for c in walk_local(fi.node):
+            if not (isinstance(c, ast.Call) and norm(c.func) in ('groupby', 'itertools.groupby') and c.args):
+                continue
+            n_sites += 1
+            pm = pm or ctx.repo.parent_map(fi.node)
+            keyf = c.args[1] if len(c.args) > 1 else next((k.value for k in c.keywords if k.arg == 'key'), None)
+            data = c.args[0]
+            d = single_def(ctx, fi, data) if isinstance(data, ast.Name) else data
+            key = f'{fi.fq}: `{norm(c)[:50]}` groups data that is ordered by the same key'
+            is_sorted = isinstance(d, ast.Call) and norm(d.func) == 'sorted' and (
+                (keyf is None and not any(k.arg == 'key' for k in d.keywords)) or
+                (keyf is not None and any(k.arg == 'key' and norm(k.value) == norm(keyf) for k in d.keywords)))
+            if not is_sorted and isinstance(data, ast.Name):
+                is_sorted = any(isinstance(x, ast.Call) and isinstance(x.func, ast.Attribute) and x.func.attr == 'sort' and norm(x.func.value) == data.id
+                                and ((keyf is None and not x.keywords) or (keyf is not None and any(k.arg == 'key' and norm(k.value) == norm(keyf) for k in x.keywords)))
+                                for x in walk_local(fi.node))
+            if is_sorted:
+                rep.ok(key, fi.loc(c))
+                continue
+            # what becomes of the groups: a dict keeps only the LAST group of each key
+            x = c
+            into_dict = False
+            while id(x) in pm and not isinstance(x, ast.stmt):
+                x = pm[id(x)]
+                if isinstance(x, ast.DictComp) or (isinstance(x, ast.Call) and norm(x.func) in ('dict', 'OrderedDict')):
+                    into_dict = True
+            if into_dict:
+                rep.violation(key, fi.loc(c), f'groupby only joins NEIGHBOURING items with equal keys, and `{norm(data)[:30]}` is not sorted by that key; the groups are then stored in a dict, '
+                              f'where a later group replaces an earlier one with the same key: the items of a key that are not adjacent are lost - a node whose relations are separated '
+                              f'by another node\'s relation seems to have fewer relations than it has')
+            else:
+                rep.undecided(key, fi.loc(c), 'the data is not visibly sorted by the grouping key')
+    rep.analysed['sites'] = n_sites
     return rep
